@@ -43,10 +43,15 @@ RULE = ("(a) tables: proofs by `decide` over the tables/guards translated from t
         "trait; compared with the event machine Model.RefLedger.Raw (incref / decref / store, checkpoints after "
         "each decref)")
 TRUSTED = [
-    "translator ctables.py (regex reader of ctraits.c, fails closed): tables, assignment sites, guards, constants",
+    "translator ctables.py (regex reader of ctraits.c, fails closed): tables, assignment sites, guards, constants, "
+    "stealing calls with the releases that can follow them (else arms of the same `if` excluded, loops and gotos "
+    "ignored), releases applied directly to struct fields, the copies of trait_clone",
     "PyType_GenericNew zero-fills a new CTrait (post_setattr / validate / delegate_attr_name start NULL)",
     "sys.getrefcount and gc.collect of CPython 3.12 (immortal objects - None, small ints, interned str - are not "
     "tracked: names are str-subclass instances)",
+    "Model.RefLedger.Warn / Raw are hand transcriptions of _warn_on_attribute_error and of the raw CTrait entry "
+    "points (event order as in the source); their link to the working tree is the correspondence run (W / A cases) "
+    "and the translated facts stolenThenReleased, fieldReleases, traitCloneCopies",
     "RUNTIME TIER IS SEARCH, NOT PROOF: out-of-bounds accesses, use-after-free and undefined behaviour are looked "
     "for by running generated programs under AddressSanitizer + UndefinedBehaviorSanitizer; absence of a report is "
     "evidence only for the programs run",
@@ -60,6 +65,14 @@ ASSUMPTIONS = [
     "allocation failure (malloc returning NULL) is not injected",
     "has_traits_setattro performs exactly one name lookup before setattr_trait for an object without instance "
     "traits (checked by a self-test at start-up)",
+    "W cases: each failure runs in a fresh warnings.catch_warnings context (a new location for the 'default' action); "
+    "a validator-raised exception on first assignment is left out (the validator rejects the ASSIGNED value before "
+    "any default is computed); the AttributeError.name / .obj attributes CPython sets on the way out of getattr() "
+    "are cleared before counting",
+    "A cases: the raw machine covers py_post_setattr, py_validate, default_value, delegate_name, delegate_prefix and "
+    "handler of three CTraits; delegate() with string payloads, notifiers and __dict__ are covered by the structural "
+    "facts (fieldReleases, traitCloneCopies) and the runtime tier only; __setstate__ is only given tuples produced "
+    "by __getstate__",
 ]
 
 _ASAN = {"scratch": None, "failed": None}
